@@ -450,7 +450,7 @@ pub fn run(args: &Args, sink: &mut Sink, asyncf: bool) {
     }
     // random long histories
     let mut rng = Rng(args.seed ^ if asyncf { 0xA5C } else { 0x0B5 });
-    let rounds = if thorough { 20000 } else { 2500 };
+    let rounds = if thorough { 100000 } else { 2500 };
     for k in 0..rounds {
         let mut r = rng.fork();
         let len = 10 + r.below(40);
@@ -775,7 +775,7 @@ pub fn run_guards(args: &Args, sink: &mut Sink) {
     sink.case("G:cancelled-writer");
     { let mut w = GW::new(sink, 1); w.subscribe(sink, true); w.rguard(sink); w.write(sink, 5, false); w.rguard(sink); w.fdrop(sink, 1); w.fpoll(sink, 2); w.settle(sink); sink.nontrivial(); }
     let mut rng = Rng(args.seed ^ 0x6A2D);
-    let rounds = if thorough { 20000 } else { 3000 };
+    let rounds = if thorough { 100000 } else { 3000 };
     for k in 0..rounds {
         let mut r = rng.fork();
         sink.case(&format!("G{k}"));
